@@ -89,7 +89,7 @@ def judge(case):
     ons, ts = instants(defn, case.get("extra", []))
     fails = []
     plain = plain_alternation(defn)
-    has_until = any(o.get("rrule") and o["rrule"].get("until") for o in defn["obs"])
+    has_until = until_read_as_local_time_matters(defn)
     for o in defn["obs"]:
         if o["from"] % 60 or o["to"] % 60 or not -12 * 3600 <= o["from"] <= 14 * 3600 or not -12 * 3600 <= o["to"] <= 14 * 3600 or o["start"][0] < 1583:
             raise ValueError("malformed case: offsets must be whole minutes in -12h..+14h, years >= 1583 (only reachable by shrinking)")
@@ -143,6 +143,25 @@ def judge(case):
                 fails.append(Failure(f"C12.{what}/{provider}{suffix}", f"{what}-differs/{provider}{suffix}",
                                      f"t={t}Z observance #{i} {ob['kind']} from {ob['from']} to {ob['to']}: {msg}; def={defn!r}"[:900]))
     return fails
+
+
+def until_read_as_local_time_matters(defn):
+    """dateutil.tz.tzical drops the Z of a rule's UNTIL and compares it with the local recurrence times: the rule then has other
+    onsets than RFC 5545 gives it exactly if some recurrence L lies between UNTIL and UNTIL + TZOFFSETFROM.  (West of Greenwich
+    with UNTIL = last onset in UTC, the way producers write it, both readings agree.)"""
+    import copy
+    for ob in defn["obs"]:
+        rr = ob.get("rrule")
+        if not rr or not rr.get("until"):
+            continue
+        u = datetime(*rr["until"])
+        free = copy.deepcopy(ob)
+        free["rrule"]["until"] = None
+        free["rrule"]["count"] = None
+        for L in Z.local_onsets(free, u.year + 2):
+            if L != datetime(*ob["start"]) and (L <= u) != (L - timedelta(seconds=ob["from"]) <= u):
+                return True
+    return False
 
 
 # ----------------------------------------------------------------------------- histories (zone cache)
